@@ -271,6 +271,8 @@ def handle (line : String) : String :=
   | ["refhash", "keccak256", bs] =>
     let lanes := Spec.H.Keccak.hashLanes (parseNats (if bs == "-" then "" else bs))
     s!"digest {joinNats (lanes.flatMap fun l => [l / 4294967296, l % 4294967296])}"
+  | ["tracelen", c, r, ch] =>
+    s!"len {traceLen (c.toNat?.getD 0) (r.toNat?.getD 0) (ch.toNat?.getD 0)}"
   | ["felt", op, a, b] =>
     let a := a.toNat?.getD 0; let b := b.toNat?.getD 0
     let r := if op == "add" then fadd a b else if op == "sub" then fsub a b
